@@ -23,6 +23,14 @@ class UndoMonitor(explore.Monitor):
     return {"initial": eng.snapshot(e), "stack": []}
 
   def before(self, st, e, bundle):
+    # requires: the document is settled (a Calculate emits nothing).  If an earlier rollback or a
+    # stale dependency left pending recalculation (other properties' subject: C04/C05), let it
+    # happen first, so that old() is a state the engine itself considers current.
+    try:
+      g = eng.apply(e, [["Calculate"]])
+      st["unsettled"] = st.get("unsettled", 0) + (1 if g.stored else 0)
+    except Exception:
+      pass
     st["pre"] = eng.snapshot(e)
 
   def after(self, st, e, bundle, group, exc):
